@@ -39,6 +39,17 @@ fn referent_expr(r: &str) -> (&'static str, &'static str, &'static str) {
 
 /// program text for a witness (`alive == false`) or its control twin (`alive == true`)
 pub fn program(w: &Witness, alive: bool) -> String {
+    if w.path.starts_with("auto trait") {
+        // the control twin asks for nothing
+        let bound = if alive { String::new() } else { format!(": {}", w.death) };
+        let make = match w.referent.as_str() {
+            "DeserializationContext" => "    let input = [0u8; 4];\n    let ctx = DeserializationContext::new(&input);\n    need(&ctx);\n",
+            "SerializationContext" => "    let ctx = SerializationContext::new(Vec::new());\n    need(&ctx);\n",
+            "State (reader)" => "    let input = [0u8; 4];\n    let mut ctx = DeserializationContext::new(&input);\n    need(ctx.state_mut());\n",
+            _ => "    let mut ctx = SerializationContext::new(Vec::new());\n    need(ctx.state_mut());\n",
+        };
+        return format!("#![forbid(unsafe_code)]\n#![allow(unused)]\nuse desert::*;\nfn need<T{bound}>(_t: &T) {{}}\nfn main() {{\n{make}}}\n");
+    }
     let (ty, ctor, observe) = referent_expr(&w.referent);
     let head = "#![forbid(unsafe_code)]\n#![allow(unused)]\nuse desert::*;\nuse desert::serializer::StoreRefResult;\n";
     // how the referent dies between 'register' and 'use': the control keeps it alive until after the use
@@ -132,6 +143,13 @@ pub fn all_witnesses() -> Vec<Witness> {
     for path in ["SliceInput::read_bytes", "DeserializationContext::read_bytes", "OwnedInput::read_bytes"] {
         for death in ["scope", "drop", "moved", "realloc"] {
             v.push(Witness { path: path.into(), death: death.into(), referent: "Vec<u8>".into() });
+        }
+    }
+    // auto traits: the contexts hold the object table (raw pointers to objects of the thread that registered them);
+    // a program that needs them to be Send or Sync must be rejected
+    for holder in ["DeserializationContext", "SerializationContext", "State (reader)", "State (writer)"] {
+        for bound in ["Send", "Sync"] {
+            v.push(Witness { path: format!("auto trait {bound}"), death: bound.into(), referent: holder.into() });
         }
     }
     for referent in ["String", "Vec<u8>", "Box<u64>", "Rc<String>"] {
@@ -238,9 +256,12 @@ fn run_witnesses(cx: &Cx, acc: &mut Acc, lines: &std::sync::Mutex<Vec<String>>, 
                     l.push("KNOWN-FINDING: property=C19 F15 a program under #![forbid(unsafe_code)] registers an object with State::store_ref / store_ref_or_object, lets it die, and gets a reference to it back from get_ref_by_id / try_read_ref (the object table erases the borrow's lifetime)".to_string());
                 }
             } else {
-                acc.violation(format!("a safe program that uses a reference after its referent died is ACCEPTED by the compiler: {w:?}\n{}", program(w, false)), json!({"witness": w}));
+                let what = if w.path.starts_with("auto trait") { "a safe program that needs a context (and with it the table of raw object pointers) to cross threads" } else { "a safe program that uses a reference after its referent died" };
+                acc.violation(format!("{what} is ACCEPTED by the compiler: {w:?}\n{}", program(w, false)), json!({"witness": w}));
                 break;
             }
+        } else if w.path.starts_with("auto trait") && wit.1.iter().any(|c| c == "E0277") {
+            acc.bump("witnesses_rejected_for_a_missing_auto_trait", 1);
         } else if !wit.1.iter().any(|c| BORROW_ERRORS.contains(&c.as_str())) {
             acc.violation(format!("HARNESS: witness {w:?} is rejected, but not by the borrow checker: {:?} {}", wit.1, wit.2), json!({"witness": w}));
             break;
@@ -443,6 +464,90 @@ pub fn check_frame(c: &FrameCase, acc: &mut Acc, record: bool) -> Verdict {
     }
 }
 
+// ---- a client-written BinaryInput (safe code) that hands out short slices at the end of its data
+
+/// reads from `data[..len]`; `read_bytes(n)` with fewer than n bytes left returns what is left (a lenient tail), as a
+/// chunked or streaming input written by a client may
+struct TailInput<'a> {
+    data: &'a [u8],
+    pos: usize,
+}
+impl desert::BinaryInput for TailInput<'_> {
+    fn read_u8(&mut self) -> desert::Result<u8> {
+        let b = *self.data.get(self.pos).ok_or(desert::Error::InputEndedUnexpectedly)?;
+        self.pos += 1;
+        Ok(b)
+    }
+    fn read_bytes(&mut self, count: usize) -> desert::Result<&[u8]> {
+        let end = self.pos.saturating_add(count).min(self.data.len());
+        let s = &self.data[self.pos..end];
+        self.pos = end;
+        Ok(s)
+    }
+    fn skip(&mut self, count: usize) -> desert::Result<()> {
+        self.pos = self.pos.saturating_add(count).min(self.data.len());
+        Ok(())
+    }
+}
+
+#[derive(Debug, Clone, Serialize, Deserialize)]
+pub struct TailCase {
+    pub bytes: Vec<u8>,
+    /// which provided method is called (index into the table below)
+    pub method: u8,
+}
+
+fn tail_call(i: &mut TailInput<'_>, method: u8) -> String {
+    use desert::BinaryInput;
+    let e = |x: desert::Error| vcat::errinfo(&x).kind;
+    match method % 14 {
+        0 => format!("{:?}", i.read_u16().map_err(e)),
+        1 => format!("{:?}", i.read_i16().map_err(e)),
+        2 => format!("{:?}", i.read_u32().map_err(e)),
+        3 => format!("{:?}", i.read_i32().map_err(e)),
+        4 => format!("{:?}", i.read_u64().map_err(e)),
+        5 => format!("{:?}", i.read_i64().map_err(e)),
+        6 => format!("{:?}", i.read_u128().map_err(e)),
+        7 => format!("{:?}", i.read_i128().map_err(e)),
+        8 => format!("{:?}", i.read_f32().map(|x| x.to_bits()).map_err(e)),
+        9 => format!("{:?}", i.read_f64().map(|x| x.to_bits()).map_err(e)),
+        10 => format!("{:?}", i.read_var_u32().map_err(e)),
+        11 => format!("{:?}", i.read_var_i32().map_err(e)),
+        12 => format!("{:?}", i.read_i8().map_err(e)),
+        _ => format!("{:?}", i.read_compressed().map_err(e)),
+    }
+}
+
+/// the provided methods of the public trait, on a client input, inside two different surroundings: whatever they
+/// return may depend on the bytes the input handed out only
+pub fn check_tail(c: &TailCase, acc: &mut Acc, record: bool) -> Verdict {
+    let width = [2usize, 2, 4, 4, 8, 8, 16, 16, 4, 8, 0, 0, 1, 0][(c.method % 14) as usize];
+    if record {
+        let class = format!("client BinaryInput with a lenient tail: provided method {}", ["read_u16", "read_i16", "read_u32", "read_i32", "read_u64", "read_i64", "read_u128", "read_i128", "read_f32", "read_f64", "read_var_u32", "read_var_i32", "read_i8", "read_compressed"][(c.method % 14) as usize]);
+        acc.case(&class, hash_json(c), width > 0 && c.bytes.len() < width && !c.bytes.is_empty());
+    }
+    let mut outcomes = Vec::new();
+    for canary in [0x53u8, 0xAC] {
+        let mut buf = vec![canary; 64];
+        buf.extend_from_slice(&c.bytes);
+        buf.extend_from_slice(&[canary; 64]);
+        let r = crate::run::guarded(|| {
+            let mut i = TailInput { data: &buf[64..64 + c.bytes.len()], pos: 0 };
+            let a = tail_call(&mut i, c.method);
+            let b = tail_call(&mut i, c.method.wrapping_add(3));
+            format!("{a} / {b}")
+        });
+        outcomes.push(match r {
+            Ok(s) => s,
+            Err(p) => format!("panic {p}"),
+        });
+    }
+    if outcomes[0] != outcomes[1] {
+        return Verdict::Fail(format!("a provided BinaryInput method on a client-written input returns data from outside the bytes it was given: over {} it yields {} with 0x53 around the buffer and {} with 0xAC around it", hex(&c.bytes), outcomes[0], outcomes[1]));
+    }
+    Verdict::Pass
+}
+
 pub fn run_c19(cx: &Cx) -> PropResult {
     let per_shard = cx.n(40_000, 1_000_000);
     let lines = std::sync::Mutex::new(Vec::new());
@@ -460,12 +565,16 @@ pub fn run_c19(cx: &Cx) -> PropResult {
             return;
         }
         let strat = surround_strategy();
-        drive(tag_seed(derive_seed(cx.seed, cx.prop, shard as u64, 1), 1), &strat, per_shard / 2, acc, &|c: &SurroundCase| to_json(&json!({"Surround": c})), &mut |c, a, r| check_surround(c, a, r));
+        if drive(tag_seed(derive_seed(cx.seed, cx.prop, shard as u64, 1), 1), &strat, per_shard / 2, acc, &|c: &SurroundCase| to_json(&json!({"Surround": c})), &mut |c, a, r| check_surround(c, a, r)) {
+            return;
+        }
+        let strat = (proptest::collection::vec(any::<u8>(), 0..20), any::<u8>()).prop_map(|(bytes, method)| TailCase { bytes, method });
+        drive(tag_seed(derive_seed(cx.seed, cx.prop, shard as u64, 4), 4), &strat, per_shard / 8, acc, &|c: &TailCase| to_json(&json!({"Tail": c})), &mut |c, a, r| check_tail(c, a, r));
     });
     let mut r = PropResult::new(
         acc,
         "exploration",
-        "(1) client programs: witnesses from a template grammar — API path (State::store_ref -> get_ref_by_id, SerializationContext::store_ref_or_object -> get_ref_by_id, store_ref -> DeserializationContext::try_read_ref, read_bytes on SliceInput / OwnedInput / DeserializationContext, a table reference outliving its context) x how the referent dies (inner scope ends, drop, moved into a callee, Vec reallocation / second mutable use) x referent type (String, Vec<u8>, Box<u64>, Rc<String>) — each a crate root with #![forbid(unsafe_code)] compiled by rustc against the freshly built desert rlib; every witness has a control twin that keeps the referent alive and must compile. Oracle: the witness is rejected with a borrow/lifetime error; a witness that compiles refutes the property. (2) inputs to the decoding paths written with unsafe code ([T; N] for T in u8, u32, String, Vec<u16>, Option<Box<u64>>, i8, bool, () and N in 0, 1, 3, 16, 17, 33; Vec<u8> / Vec<T>; Bytes; BigInt): valid, count-mismatched, truncated and tampered encodings; every Ok must equal the reference decoder's value (content that does not come from the input is caught without a sanitizer) and must not change when the allocator pre-fills fresh heap memory with 0x53 / 0xAC (uninitialised memory reaching a result is caught without Miri); the thorough tier repeats this corpus under AddressSanitizer (libFuzzer target) and Miri. (2b) compressed blocks whose header overstates / understates the uncompressed length, read under the same allocator pre-fill oracle. (3) reads stay inside the supplied buffer: tampered and raw inputs for run-time struct declarations are decoded — by deserialize and by a tolerant client that keeps reading fields with the same AdtDeserializer after a field failed — inside two different surroundings (canary bytes 0x53 / 0xAC before and after the slice); the outcomes must be identical (a process killed by an out-of-range access is reported by the supervisor). Non-trivial = witness whose control compiles; input whose count / length differs from what the target expects.",
+        "(1) client programs: witnesses from a template grammar — API path (State::store_ref -> get_ref_by_id, SerializationContext::store_ref_or_object -> get_ref_by_id, store_ref -> DeserializationContext::try_read_ref, read_bytes on SliceInput / OwnedInput / DeserializationContext, a table reference outliving its context; and programs that need DeserializationContext / SerializationContext / State to be Send or Sync) x how the referent dies (inner scope ends, drop, moved into a callee, Vec reallocation / second mutable use) x referent type (String, Vec<u8>, Box<u64>, Rc<String>) — each a crate root with #![forbid(unsafe_code)] compiled by rustc against the freshly built desert rlib; every witness has a control twin that keeps the referent alive and must compile. Oracle: the witness is rejected with a borrow/lifetime error (E0277 for the auto-trait ones); a witness that compiles refutes the property. (2) inputs to the decoding paths written with unsafe code ([T; N] for T in u8, u32, String, Vec<u16>, Option<Box<u64>>, i8, bool, () and N in 0, 1, 3, 16, 17, 33; Vec<u8> / Vec<T>; Bytes; BigInt): valid, count-mismatched, truncated and tampered encodings; every Ok must equal the reference decoder's value (content that does not come from the input is caught without a sanitizer) and must not change when the allocator pre-fills fresh heap memory with 0x53 / 0xAC (uninitialised memory reaching a result is caught without Miri); the thorough tier repeats this corpus under AddressSanitizer (libFuzzer target) and Miri. (2b) compressed blocks whose header overstates / understates the uncompressed length, read under the same allocator pre-fill oracle. (3) reads stay inside the supplied buffer: tampered and raw inputs for run-time struct declarations are decoded — by deserialize and by a tolerant client that keeps reading fields with the same AdtDeserializer after a field failed — inside two different surroundings (canary bytes 0x53 / 0xAC before and after the slice); the outcomes must be identical (a process killed by an out-of-range access is reported by the supervisor); the provided methods of the public BinaryInput trait are called on a client-written input (safe code) whose read_bytes hands out a short slice at its end, under the same two-surroundings oracle. Non-trivial = witness whose control compiles; input whose count / length differs from what the target expects.",
     );
     r.lines = lines.into_inner().unwrap();
     r.assumptions = vec![
@@ -487,6 +596,10 @@ pub fn replay_c19(case: &Value) -> Verdict {
             Ok(_) => Verdict::Pass,
             Err(e) => Verdict::Fail(e),
         };
+    }
+    if let Some(t) = case.get("Tail") {
+        let c: TailCase = serde_json::from_value(t.clone()).expect("replay case");
+        return check_tail(&c, &mut Acc::new(), false);
     }
     if let Some(f) = case.get("Frame") {
         let c: FrameCase = serde_json::from_value(f.clone()).expect("replay case");
